@@ -498,4 +498,306 @@ def exWorld : World :=
 example : (run (10 ^ 20) exWorld [.mint 1 0 7, .mint 2 1 8, .burn 0 3]).g.mintingCost = 200 := by decide
 example : validateConfirmable { initialized := true, ts := 95, timeWindow := 100 } 100 = .ok () := by rfl
 
+/-! ### Non-vacuity added by the audit (B6): the invariant on the initial AND on a reached state,
+a concrete run through every instruction kind, and each theorem instantiated -/
+
+/-- the invariant holds on the initial example world (hypotheses of `fresh_world_inv` are met) … -/
+theorem exWorld_inv_witness : Inv (10 ^ 20) 100 exWorld :=
+  fresh_world_inv (U := 10 ^ 20) (g := exWorld.g) 2 rfl rfl rfl (by decide)
+
+/-- a history using every instruction once: mint 7 to user 0; value-mint 1650 (= 16 GT at cost 100,
+crossing two cost steps) to user 1; open a 100 s exchange window at t = 50; user 0 deposits 3 at
+t = 60; user 1 burns 2; the vault is confirmed in the next window (t = 150) -/
+local notation "exOps" =>
+  ([Op.mint 1 0 7, Op.mintValue 2 1 1650, Op.vaultInit 50 100, Op.request 60 0 3, Op.burn 1 2, Op.confirm 150] : List Op)
+
+-- every instruction succeeded (the values can only arise if none was skipped as an error)
+local notation "exEnd" => (run (10 ^ 20) exWorld exOps)
+example : (exEnd).g.supply = 18 ∧ (exEnd).g.totalMinted = 23 ∧ (exEnd).g.mintingCost = 400 ∧ (exEnd).g.growSteps = 2 ∧
+    (exEnd).g.gtVault = 3 ∧ (exEnd).vault.amount = 3 ∧ (exEnd).vault.confirmed = true ∧
+    (exEnd).users.map (·.amount) = [4, 14] ∧ (exEnd).users.map (·.rank) = [0, 1] ∧
+    (exEnd).users.map (·.exchange) = [3, 0] := by decide +kernel
+-- … and on that non-initial reached state (`run_preserves` instantiated on the non-empty run)
+example : Inv (10 ^ 20) 100 (run (10 ^ 20) exWorld exOps) := (run_preserves exOps exWorld exWorld_inv_witness).1
+example : (run (10 ^ 20) exWorld exOps).g.supply = sumAmounts (run (10 ^ 20) exWorld exOps).users :=
+  supply_eq_sum_balances exWorld exOps exWorld_inv_witness
+example : exWorld.g.totalMinted ≤ (run (10 ^ 20) exWorld exOps).g.totalMinted :=
+  total_minted_monotone exWorld exOps exWorld_inv_witness
+example : iterCost (10 ^ 20) (run (10 ^ 20) exWorld exOps).g.costGrowFactor
+    ((run (10 ^ 20) exWorld exOps).g.totalMinted / (run (10 ^ 20) exWorld exOps).g.growStepAmount) 100 =
+    some (run (10 ^ 20) exWorld exOps).g.mintingCost :=
+  cost_function_of_total_minted exWorld exOps exWorld_inv_witness
+example : iterCost (10 ^ 20) (2 * 10 ^ 20) (23 / 10) 100 = some 400 := by decide
+example : ∀ u ∈ (run (10 ^ 20) exWorld exOps).users,
+    u.rank = ((run (10 ^ 20) exWorld exOps).g.ranks.filter (fun t => decide (t ≤ u.amount))).length :=
+  rank_always_count_partial exWorld exOps exWorld_inv_witness (by decide +kernel)
+example : (run (10 ^ 20) exWorld exOps).vault.amount = sumExchange (run (10 ^ 20) exWorld exOps).users :=
+  vault_eq_sum_exchanges exWorld exOps exWorld_inv_witness
+-- `step_preserves` on a failing instruction (burn more than the balance): the world is unchanged
+example : step (10 ^ 20) exWorld (.burn 0 1) = exWorld := by decide +kernel
+example : Inv (10 ^ 20) 100 (step (10 ^ 20) exWorld (.burn 0 1)) := (step_preserves exWorld _ exWorld_inv_witness).1
+
+-- `stepE_preserves` / `mint_preserves`: the hypotheses are met by the first mint …
+example : (stepE (10 ^ 20) exWorld (.mint 1 0 7)).map (fun w => (w.g.supply, w.users.map (·.amount))) = .ok (7, [7, 0]) := by
+  rfl
+example : ∀ w', stepE (10 ^ 20) exWorld (.mint 1 0 7) = .ok w' →
+    Inv (10 ^ 20) 100 w' ∧ exWorld.g.totalMinted ≤ w'.g.totalMinted :=
+  fun _ h => stepE_preserves exWorld_inv_witness h
+example : exWorld.users[0]? = some ({} : User) ∧
+    (mintTo (10 ^ 20) 1 exWorld.g {} 7).map (fun p => (p.1.totalMinted, p.2.amount, p.2.rank)) = .ok (7, 7, 1) :=
+  ⟨rfl, rfl⟩
+example : ∀ g' u', mintTo (10 ^ 20) 1 exWorld.g {} 7 = .ok (g', u') →
+    Inv (10 ^ 20) 100 { exWorld with g := g', users := setUser exWorld.users 0 u' } ∧
+      exWorld.g.totalMinted ≤ g'.totalMinted :=
+  fun _ _ h => mint_preserves (uid := 0) exWorld_inv_witness rfl h
+-- … and `burn_preserves` by a burn on the world reached after it
+example : (run (10 ^ 20) exWorld [.mint 1 0 7]).users[0]? = some { rank := 1, amount := 7, totalMinted := 7, lastMintedAt := 1 } ∧
+    (burnFrom (run (10 ^ 20) exWorld [.mint 1 0 7]).g { rank := 1, amount := 7, totalMinted := 7, lastMintedAt := 1 } 3).map
+      (fun p => (p.1.supply, p.2.amount, p.2.rank)) = .ok (4, 4, 0) := by
+  refine ⟨by decide +kernel, by rfl⟩
+example : ∀ g' u', burnFrom (run (10 ^ 20) exWorld [.mint 1 0 7]).g
+      { rank := 1, amount := 7, totalMinted := 7, lastMintedAt := 1 } 3 = .ok (g', u') →
+    Inv (10 ^ 20) 100 { g := g', users := setUser (run (10 ^ 20) exWorld [.mint 1 0 7]).users 0 u', vault := (run (10 ^ 20) exWorld [.mint 1 0 7]).vault } ∧
+    g'.totalMinted = (run (10 ^ 20) exWorld [.mint 1 0 7]).g.totalMinted ∧
+    g'.ranks = (run (10 ^ 20) exWorld [.mint 1 0 7]).g.ranks ∧
+    g'.gtVault = (run (10 ^ 20) exWorld [.mint 1 0 7]).g.gtVault :=
+  fun _ _ h => burn_preserves (uid := 0) (run_preserves [.mint 1 0 7] exWorld exWorld_inv_witness).1
+    (by decide +kernel) h
+
+-- `mintTo_preserves_costInv`: a mint that crosses a cost step (15 / 10 = 1 step, cost 100 → 200)
+example : CostInv (10 ^ 20) 100 exWorld.g := exWorld_inv_witness.cost
+example : (mintTo (10 ^ 20) 1 exWorld.g {} 15).map (fun p => (p.1.growSteps, p.1.mintingCost)) = .ok (1, 200) := by rfl
+example : ∀ g' u', mintTo (10 ^ 20) 1 exWorld.g {} 15 = .ok (g', u') → CostInv (10 ^ 20) 100 g' :=
+  fun _ _ h => mintTo_preserves_costInv exWorld_inv_witness.cost h
+-- `cost_split_independent`: 7 then 8 (to different users, at different times) against 15 at once;
+-- the three mints succeed, the second one from the state the first one produced
+example : ((mintTo (10 ^ 20) 1 exWorld.g {} 7).bind fun p => mintTo (10 ^ 20) 2 p.1 { amount := 1 } 8).map
+      (fun p => (p.1.totalMinted, p.1.growSteps, p.1.mintingCost)) = .ok (15, 1, 200) ∧
+    (mintTo (10 ^ 20) 3 exWorld.g { amount := 2 } 15).map
+      (fun p => (p.1.totalMinted, p.1.growSteps, p.1.mintingCost)) = .ok (15, 1, 200) := ⟨rfl, rfl⟩
+example : ∀ g1 g2 g3 u1' u2' u3', mintTo (10 ^ 20) 1 exWorld.g {} 7 = .ok (g1, u1') →
+    mintTo (10 ^ 20) 2 g1 { amount := 1 } 8 = .ok (g2, u2') →
+    mintTo (10 ^ 20) 3 exWorld.g { amount := 2 } 15 = .ok (g3, u3') →
+    g2.totalMinted = g3.totalMinted ∧ g2.growSteps = g3.growSteps ∧ g2.mintingCost = g3.mintingCost :=
+  fun _ _ _ _ _ _ h1 h2 h3 => cost_split_independent (by decide) h1 h2 h3
+
+-- `rank_spec`: sorted thresholds; and why the hypothesis is needed (unsorted: scan 1, count 2)
+example : rankScan [10, 20, 30] 25 = ([10, 20, 30].filter (fun t => decide (t ≤ 25))).length :=
+  rank_spec [10, 20, 30] 25 (by decide)
+example : rankScan [10, 30, 20] 25 = 1 ∧ ([10, 30, 20].filter (fun t => decide (t ≤ 25))).length = 2 := by decide
+-- `init_ranks_sorted`: a successful init, and the two rejections it is about
+example : (init {} 5 100 (2 * 10 ^ 20) 10 [5, 10, 40]).map (fun g => (g.ranks, g.growStepAmount, g.mintingCost)) =
+    .ok ([5, 10, 40], 10, 100) := by rfl
+example : ∀ g', init {} 5 100 (2 * 10 ^ 20) 10 [5, 10, 40] = .ok g' → strictSorted g'.ranks = true :=
+  fun _ h => (init_ranks_sorted h).1
+example : init {} 5 100 (2 * 10 ^ 20) 10 [5, 5] = .error .config ∧ init {} 5 100 (2 * 10 ^ 20) 0 [5] = .error .config ∧
+    init { totalMinted := 1 } 5 100 (2 * 10 ^ 20) 10 [5] = .error .initialized := ⟨rfl, rfl, rfl⟩
+-- `mint_amount_spec` / `mint_amount_zero_cost`
+example : (4 : Nat) = 30 / 7 ∧ (28 : Nat) = 4 * 7 ∧ 28 ≤ 30 ∧ 30 - 28 < 7 :=
+  have h := mint_amount_spec (g := { mintingCost := 7 }) (value := 30) (m := 4) (mv := 28) (c := 7) (by rfl)
+  ⟨h.2.2.1, h.2.2.2.1, h.2.2.2.2.1, h.2.2.2.2.2.1⟩
+example : getMintAmount {} 30 = .error .config := mint_amount_zero_cost {} 30 rfl
+example : getMintAmount { mintingCost := 1 } (2 ^ 64) = .error .overflow := by rfl
+-- `mem_setUser`
+example : ({ amount := 3 } : User) = { amount := 3 } ∨ ({ amount := 3 } : User) ∈ [({} : User)] :=
+  mem_setUser (us := [{}]) (i := 0) (by decide)
+
+-- exchange window: `depositable_iff`, `confirmable_iff`, `vaultInit_window_pos`, `confirmed_is_final`
+example : validateDepositable { initialized := true, ts := 95, timeWindow := 100 } 60 = .ok () ∧
+    validateDepositable { initialized := true, ts := 95, timeWindow := 100 } 100 = .error .arg ∧
+    validateDepositable { initialized := true, ts := 95, timeWindow := 0 } 60 = .error .divZero := ⟨rfl, rfl, rfl⟩
+example : windowIndex 60 100 = windowIndex 95 100 :=
+  ((depositable_iff { initialized := true, ts := 95, timeWindow := 100 } 60).1 rfl).2.2
+example : windowIndex 100 100 > windowIndex 95 100 :=
+  ((confirmable_iff { initialized := true, ts := 95, timeWindow := 100 } 100).1 rfl).2.2.2
+example : vaultInit {} 50 100 = .ok { initialized := true, ts := 50, timeWindow := 100 } ∧
+    vaultInit {} 50 0 = .error .arg ∧ vaultInit { initialized := true } 50 100 = .error .precond := ⟨rfl, rfl, rfl⟩
+example : (100 : Nat) ≠ 0 :=
+  (vaultInit_window_pos (v := {}) (v' := { initialized := true, ts := 50, timeWindow := 100 }) (now := 50) (tw := 100)
+    rfl).2.2.1
+example : validateDepositable { initialized := true, confirmed := true, ts := 95, timeWindow := 100 } 60 = .error .precond ∧
+    validateConfirmable { initialized := true, confirmed := true, ts := 95, timeWindow := 100 } 200 = .error .precond :=
+  confirmed_is_final _ _ rfl
+-- `window_interval`: ts = 95, window 100 ⇒ deposits in [0, 100)
+example : windowIndex ((60 : Nat) : Int) ((100 : Nat) : Int) = windowIndex ((95 : Nat) : Int) ((100 : Nat) : Int) :=
+  (window_interval 95 60 100 (by decide)).2 ⟨by decide, by decide⟩
+example : 95 / 100 * 100 ≤ 60 ∧ 60 < (95 / 100 + 1) * 100 := (window_interval 95 60 100 (by decide)).1 (by decide)
+-- outside the domain of `window_interval` (negative clock, model only): truncation toward zero makes the
+-- window around 0 twice as long — `-50` and `50` share an index
+example : windowIndex (-50) 100 = windowIndex 50 100 ∧ windowIndex (-99) 100 = windowIndex 99 100 := by decide
+
+/-- AUDIT (B6), new: no instruction changes the rank thresholds, the grow step or the grow factor
+(they are fixed by `init`) … -/
+theorem stepE_keeps_config {U : Nat} {w w' : World} {op : Op} (h : stepE U w op = .ok w') :
+    w'.g.ranks = w.g.ranks ∧ w'.g.growStepAmount = w.g.growStepAmount ∧
+      w'.g.costGrowFactor = w.g.costGrowFactor := by
+  have hmint : ∀ {now : Int} {g g' : Gt} {u u' : User} {amount : Nat}, mintTo U now g u amount = .ok (g', u') →
+      g'.ranks = g.ranks ∧ g'.growStepAmount = g.growStepAmount ∧ g'.costGrowFactor = g.costGrowFactor := by
+    intro now g g' u u' amount hm
+    by_cases hne : amount = 0
+    · simp [mintTo, hne] at hm; obtain ⟨rfl, _⟩ := hm; exact ⟨rfl, rfl, rfl⟩
+    · obtain ⟨_, _, _, hr, hs, hf, _⟩ := mintTo_effect hne hm
+      exact ⟨hr, hs, hf⟩
+  have hburn : ∀ {g g' : Gt} {u u' : User} {amount : Nat}, burnFrom g u amount = .ok (g', u') →
+      g'.ranks = g.ranks ∧ g'.growStepAmount = g.growStepAmount ∧ g'.costGrowFactor = g.costGrowFactor := by
+    intro g g' u u' amount hb
+    by_cases hne : amount = 0
+    · simp [burnFrom, hne] at hb; obtain ⟨rfl, _⟩ := hb; exact ⟨rfl, rfl, rfl⟩
+    · obtain ⟨_, _, _, _, rfl, _⟩ := burnFrom_effect hne hb
+      exact ⟨rfl, rfl, rfl⟩
+  cases op with
+  | mint now uid amount =>
+    simp only [stepE] at h
+    cases hu : w.users[uid]? with
+    | none => simp [hu] at h
+    | some u =>
+      simp only [hu] at h
+      cases hm : mintTo U now w.g u amount with
+      | error e => simp [hm] at h
+      | ok p =>
+        obtain ⟨g', u'⟩ := p
+        simp only [hm] at h; injection h with h; subst h
+        exact hmint hm
+  | burn uid amount =>
+    simp only [stepE] at h
+    cases hu : w.users[uid]? with
+    | none => simp [hu] at h
+    | some u =>
+      simp only [hu] at h
+      cases hm : burnFrom w.g u amount with
+      | error e => simp [hm] at h
+      | ok p =>
+        obtain ⟨g', u'⟩ := p
+        simp only [hm] at h; injection h with h; subst h
+        exact hburn hm
+  | mintValue now uid value =>
+    simp only [stepE] at h
+    cases hu : w.users[uid]? with
+    | none => simp [hu] at h
+    | some u =>
+      simp only [hu] at h
+      cases hg : getMintAmount w.g value with
+      | error e => simp [hg] at h
+      | ok q =>
+        obtain ⟨m, mv, c⟩ := q
+        simp only [hg] at h
+        cases hm : mintTo U now w.g u m with
+        | error e => simp [hm] at h
+        | ok p =>
+          obtain ⟨g', u'⟩ := p
+          simp only [hm] at h; injection h with h; subst h
+          exact hmint hm
+  | vaultInit now tw =>
+    simp only [stepE] at h
+    cases hv : vaultInit w.vault now tw with
+    | error e => simp [hv] at h
+    | ok v =>
+      simp only [hv] at h; injection h with h; subst h
+      exact ⟨rfl, rfl, rfl⟩
+  | request now uid amount =>
+    simp only [stepE] at h
+    cases hu : w.users[uid]? with
+    | none => simp [hu] at h
+    | some u =>
+      simp only [hu] at h
+      cases hm : requestExchange w.g u w.vault now amount with
+      | error e => simp [hm] at h
+      | ok p =>
+        obtain ⟨g', u', v'⟩ := p
+        simp only [hm] at h; injection h with h; subst h
+        unfold requestExchange at hm
+        by_cases hvi : w.vault.initialized = true
+        · simp only [hvi, Bool.not_true, Bool.false_eq_true, if_false] at hm
+          cases hb : burnFrom w.g u amount with
+          | error e => simp [hb] at hm
+          | ok q =>
+            obtain ⟨g1, u1⟩ := q
+            simp only [hb] at hm
+            cases hd : validateDepositable w.vault now with
+            | error e => simp [hd] at hm
+            | ok _ =>
+              simp only [hd, checkedAdd, toU] at hm
+              by_cases hva : w.vault.amount + amount < 2 ^ 64
+              · by_cases hxa : u1.exchange + amount < 2 ^ 64
+                · simp only [hva, hxa, if_true] at hm
+                  injection hm with hm; injection hm with e1 e2; injection e2 with e2 e3
+                  subst e1; subst e2; subst e3
+                  exact hburn hb
+                · simp [hva, hxa] at hm
+              · simp [hva] at hm
+        · simp [hvi] at hm
+  | confirm now =>
+    simp only [stepE] at h
+    cases hc : confirmVault w.g w.vault now with
+    | error e => simp [hc] at h
+    | ok p =>
+      obtain ⟨g', v', amt⟩ := p
+      simp only [hc] at h; injection h with h; subst h
+      unfold confirmVault at hc
+      by_cases hvi : w.vault.initialized = true
+      · simp only [hvi, Bool.not_true, Bool.false_eq_true, if_false] at hc
+        cases hd : validateConfirmable w.vault now with
+        | error e => simp [hd] at hc
+        | ok _ =>
+          simp only [hd, checkedAdd, toU] at hc
+          by_cases hz : w.vault.amount = 0
+          · simp only [hz, if_true] at hc
+            injection hc with hc; injection hc with e1 e2; injection e2 with e2 e3
+            subst e1; subst e2
+            exact ⟨rfl, rfl, rfl⟩
+          · simp only [hz, if_false] at hc
+            by_cases hg : w.g.gtVault + w.vault.amount < 2 ^ 64
+            · simp only [hg, if_true] at hc
+              injection hc with hc; injection hc with e1 e2; injection e2 with e2 e3
+              subst e1; subst e2
+              exact ⟨rfl, rfl, rfl⟩
+            · simp [hg] at hc
+      · simp [hvi] at hc
+
+/-- … so they are the initial ones after any history. -/
+theorem run_keeps_config {U : Nat} (ops : List Op) : ∀ (w : World),
+    (run U w ops).g.ranks = w.g.ranks ∧ (run U w ops).g.growStepAmount = w.g.growStepAmount ∧
+      (run U w ops).g.costGrowFactor = w.g.costGrowFactor := by
+  induction ops with
+  | nil => intro w; exact ⟨rfl, rfl, rfl⟩
+  | cons op ops ih =>
+    intro w
+    have s : (step U w op).g.ranks = w.g.ranks ∧ (step U w op).g.growStepAmount = w.g.growStepAmount ∧
+        (step U w op).g.costGrowFactor = w.g.costGrowFactor := by
+      unfold step
+      cases h : stepE U w op with
+      | ok w' => exact stepE_keeps_config h
+      | error e => exact ⟨rfl, rfl, rfl⟩
+    have t := ih (step U w op)
+    simp only [run, List.foldl_cons] at t ⊢
+    exact ⟨t.1.trans s.1, t.2.1.trans s.2.1, t.2.2.trans s.2.2⟩
+
+/-- AUDIT (B6), stronger form of `rank_always_count_partial`: the sortedness hypothesis is about
+the INITIAL thresholds (what `init_ranks_sorted` establishes), not about the state after the
+history, and the count is over the initial thresholds. -/
+theorem rank_always_count {U c0 : Nat} (w : World) (ops : List Op) (hi : Inv U c0 w)
+    (hs : strictSorted w.g.ranks = true) :
+    ∀ u ∈ (run U w ops).users, u.rank = (w.g.ranks.filter (fun t => decide (t ≤ u.amount))).length := by
+  intro u hu
+  have e := (run_keeps_config (U := U) ops w).1
+  have := rank_always_count_partial w ops hi (by rw [e]; exact hs) u hu
+  rw [e] at this
+  exact this
+example : ∀ u ∈ (run (10 ^ 20) exWorld exOps).users,
+    u.rank = (([5] : List Nat).filter (fun t => decide (t ≤ u.amount))).length :=
+  rank_always_count exWorld exOps exWorld_inv_witness (by decide)
+
+/-- AUDIT (B6): with the grow step fixed, the cost after any history is the initial cost grown
+`total_minted / initial grow step` times with the initial factor. -/
+theorem cost_function_of_total_minted_init {U c0 : Nat} (w : World) (ops : List Op) (hi : Inv U c0 w) :
+    iterCost U w.g.costGrowFactor ((run U w ops).g.totalMinted / w.g.growStepAmount) c0 =
+      some (run U w ops).g.mintingCost := by
+  have e := run_keeps_config (U := U) ops w
+  have := cost_function_of_total_minted w ops hi
+  simp only [e.2.1, e.2.2] at this
+  exact this
+example : iterCost (10 ^ 20) (2 * 10 ^ 20) ((run (10 ^ 20) exWorld exOps).g.totalMinted / 10) 100 =
+    some (run (10 ^ 20) exWorld exOps).g.mintingCost :=
+  cost_function_of_total_minted_init exWorld exOps exWorld_inv_witness
+
 end Gmx.C30
